@@ -172,6 +172,8 @@ def gen_inc_case(rng, base, k):
                 elif shape < 0.45: text = '#ifndef %s\n#define %s\n#endif\n%s\n#ifdef NEVER_%d\nnever\n#endif\n' % (g, g, '\n'.join(body), k)      # not a guard: text outside
                 elif shape < 0.55: text = '#ifndef %s\n#define %s\n%s\n#else\nAGAIN_%s_%s\n#endif\n' % (g, g, '\n'.join(body), d, n[:2])           # not a guard: #else
                 elif shape < 0.62: text = '#ifndef %s\n#define %s\n#if 1\n%s\n#endif\n#endif\n' % (g, g, '\n'.join(body))                            # guard with nested #if
+                elif shape < 0.72: text = '#ifndef %s\n#define %s\n%s\n#elif 1\nAGAIN_%s_%s\n#endif\n' % (g, g, '\n'.join(body), d, n[:2])          # not a guard: #elif on the opening #ifndef (taken at the second inclusion)
+                elif shape < 0.76: text = '#ifndef %s\n#define %s\n%s\n#elif 0\nNEVER_%s_%s\n#else\nTHIRD_%s_%s\n#endif\n' % (g, g, '\n'.join(body), d, n[:2], d, n[:2])
                 else: text = '\n'.join(body) + ('\n' if rng.random() < 0.8 else '')
                 files[(d, n)] = text
     local = {}
@@ -215,6 +217,9 @@ def expand_reference(model, dirs, files, main_lines, idirs, adirs):
                 elif line.startswith('#ifdef'): c = line.split()[1] in defined
                 else: c = line.split()[1] == '1'
                 stack.append([active, active and c, active and c]); active = active and c; continue
+            if line.startswith('#elif'):
+                top = stack[-1]; c = line.split()[1] == '1'
+                top[2] = top[0] and not top[1] and c; top[1] = top[1] or top[2]; active = top[2]; continue
             if line.startswith('#else'):
                 top = stack[-1]; top[2] = top[0] and not top[1]; top[1] = True; active = top[2]; continue
             if line.startswith('#endif'):
